@@ -345,6 +345,20 @@ Section SPLIT.
     unfold split_check in HC. apply andb_true_iff in HC as [H0 _]. apply andb_true_iff in H0 as [H0 _].
     apply andb_true_iff in H0 as [H0 _]. apply Nat.leb_le in H0. unfold inr. simpl. lia.
   Qed.
+  Lemma split_edge_ok_spec b T t : split_edge_ok F f g b T t = true ->
+    (inr T /\ T = t /\ phis_in_ok (nth_block f t) (nth_block g t) b b = true) \/ (~ inr T /\ exists prs, via_split T b t prs).
+  Proof.
+    intros Hx. unfold split_edge_ok in Hx. destruct (N.ltb T (N.of_nat (List.length f))) eqn:El.
+    - apply N.ltb_lt in El. apply andb_true_iff in Hx as [H1 H2]. apply N.eqb_eq in H1. left. unfold inr. split; [lia|]. auto.
+    - apply N.ltb_ge in El. right. split; [unfold inr; lia|].
+      destruct (split_info F (nth_block g T)) as [[prs t']|] eqn:Es; try discriminate.
+      apply andb_true_iff in Hx as [Hx H5]. apply andb_true_iff in Hx as [Hx H4]. apply andb_true_iff in Hx as [Hx H3].
+      apply andb_true_iff in Hx as [H1 H2]. apply N.eqb_eq in H1. apply N.ltb_lt in H2. subst t'.
+      exists prs. unfold via_split. repeat split; auto; [unfold inr; lia|].
+      intros v n Hin Hv. rewrite forallb_forall in H4. specialize (H4 _ Hin). simpl in H4. apply negb_true_iff in H4.
+      apply memN_In in Hv. congruence.
+  Qed.
+
   Theorem split_bisimulation_data db da :
     split_data_check F f g db da = true ->
     exists R, bisimulation M osem lv g f R /\
@@ -352,19 +366,19 @@ Section SPLIT.
         nth_error db i = Some tb -> nth_error da i = Some ta -> In tb (labels_of (i_args Tb)) ->
         R (Run ta 0 (Some b) c m) (Run tb 0 (Some b) c m).
   Proof.
-    intros H. unfold split_data_check in H. apply andb_true_iff in H as [He Hall]. apply (list_eqb_eq _ N_eqb_eq') in He. subst da.
-    exists Rs. split.
+    intros Hall. unfold split_data_check in Hall. exists Rs. split.
     - split; [|split; [apply split_fwd | apply split_bwd]].
       intros c m. apply Rs_main; [| apply agree_refl | left; auto].
       unfold split_check in HC. apply andb_true_iff in HC as [H0 _]. apply andb_true_iff in H0 as [H0 _].
       apply andb_true_iff in H0 as [H0 _]. apply Nat.leb_le in H0. unfold inr. simpl. lia.
-    - intros b Tb i tb ta c m Hb Hdj H1 H2 Hin. rewrite H1 in H2. inversion H2; subst ta.
+    - intros b Tb i tb ta c m Hb Hdj H1 H2 Hin.
       pose proof (forallb_seq _ _ Hall _ Hb) as Hx. cbv beta zeta in Hx. rewrite N2Nat.id, Hdj in Hx.
       destruct (last_inst (nth_block g b)) as [Ta|]; try discriminate.
-      apply In_nth_error in Hin as [j Hj]. destruct (forall2b_nth_ex _ _ _ _ _ Hx Hj) as [t' [_ Hy]]. cbv beta in Hy.
-      assert (Hm : memN tb db = true) by (apply memN_In; eapply nth_error_In; eauto). rewrite Hm in Hy. simpl in Hy.
-      apply andb_true_iff in Hy as [Hy Hok]. apply andb_true_iff in Hy as [_ Hlt]. apply N.ltb_lt in Hlt.
-      apply arrive_direct; auto using agree_refl. unfold inr. lia.
+      unfold table_ok in Hx. pose proof (forall2b_nth _ _ _ _ _ _ Hx H1 H2) as Hy. cbv beta in Hy.
+      apply andb_true_iff in Hy as [_ Hy]. apply memN_In in Hin. rewrite Hin in Hy. simpl in Hy.
+      destruct (split_edge_ok_spec _ _ _ Hy) as [[HrT [ET Hok]] | [HnT [prs Hvs]]].
+      + subst ta. apply arrive_direct; auto using agree_refl.
+      + eapply Rs_split; eauto using agree_refl; [lia|]. intros k v n Hk. lia.
   Qed.
 End SPLIT.
 
